@@ -4,7 +4,8 @@ set -e
 cd "$(dirname "$0")"
 export CARGO_NET_OFFLINE=true
 python3 translator/translate.py /repo lean/BindgenModel/Generated || true
-(cd lean && lake build 2>&1 | tail -5)
+MODS=$(python3 -c "import json;d=json.load(open('lean/props_index.json'));print(' '.join(sorted({m for v in d.values() for m in v['modules']})))")
+(cd lean && lake build bgmodel $MODS 2>&1 | tail -5)
 python3 - <<'PY'
 import sys, os
 sys.path.insert(0, "checks")
